@@ -721,6 +721,31 @@ pub(crate) fn check_value(l: Label, evals: &mut u64) -> Option<(String, String)>
             if g2.kids(0).len() != 1 {
                 return Some(("label.kid_lookup".into(), format!("parsed and constructed {text:?} are two labels on one vertex")));
             }
+            // ... also when the vertex has edges under neighbouring names: the text with one more
+            // character (bound first) and the text without its last character
+            let n_chars = text.chars().count();
+            if matches!(l, Label::Str(_)) && (2..=7).contains(&n_chars) && !text.starts_with('α') {
+                let longer = format!("{text}x");
+                let shorter: String = text.chars().take(n_chars - 1).collect();
+                if let Ok(ll) = Label::from_str(&longer) {
+                    let mut g3 = new_graph(3, 5);
+                    for v in 0..4 {
+                        g3.add(v);
+                    }
+                    g3.bind(0, 1, ll);
+                    g3.bind(0, 2, l);
+                    let ls = Label::from_str(&shorter).ok().filter(|x| *x != l && *x != ll);
+                    if let Some(ls) = ls {
+                        g3.bind(0, 3, ls);
+                    }
+                    let want_n = if ls.is_some() { 3 } else { 2 };
+                    if g3.kid(0, p) != Some(2) || g3.kid(0, ll) != Some(1) || ls.is_some_and(|x| g3.kid(0, x) != Some(3)) || g3.kids(0).len() != want_n {
+                        return Some(("label.kid_lookup".into(), format!(
+                            "a vertex with edges {longer:?} -> 1, {text:?} -> 2, {shorter:?} -> 3: kid under from_str({text:?}) = {:?}, under {longer:?} = {:?}, {} edges",
+                            g3.kid(0, p), g3.kid(0, ll), g3.kids(0).len())));
+                    }
+                }
+            }
         }
     }
     None
